@@ -77,6 +77,11 @@ def gen(ctx):
           and ast.unparse(body[3]) == "return True")
     if not ok:
         raise T.Untranslatable(f"UNTRANSLATABLE: UpdateableGroup.idle no longer has the shape (group FIFO, nodes known, every node idle): {ast.unparse(gi)[:400]}")
+    # the daemon's own wait for the queue to drain (update_loop in exit-after-update mode): queued + running + deferred
+    ul = T.find_func(upd, "update_loop")
+    drains = [ast.unparse(x.test) for x in T.if_tests(ul) if "deferred_size" in ast.unparse(x.test)]
+    if drains != ["queue.qsize + queue.inprogress_size + queue.deferred_size == 0"]:
+        raise T.Untranslatable(f"UNTRANSLATABLE: update_loop's drain test changed: {drains}")
     # Task.__call__: the re-queue call
     tt = T.parse(core.REPO / "alpenhorn/scheduler/task.py")
     fc = T.find_func(tt, "Task.__call__")
@@ -587,6 +592,73 @@ def explore_consumers(ctx, n):
         pool.global_abort.clear()
 
 
+def explore_drain(ctx):
+    """update_loop(once=True) on a host without nodes: it returns only when nothing is queued, deferred or running; the loop's wait step is
+    scripted (each wait lets one more piece of outstanding work finish), so no real time is involved"""
+    from alpenhorn.daemon import update as U
+    from alpenhorn.scheduler import FairMultiFIFOQueue
+    from vf.harness import world as w
+
+    for shape in ("running", "two-running", "queued-and-running", "deferred"):
+        w.fresh_db(host="h1")
+        queue = FairMultiFIFOQueue()
+        outstanding = []  # callables finishing one piece of work each
+        if shape in ("running", "two-running", "queued-and-running"):
+            for j in range(2 if shape == "two-running" else 1):
+                queue.put(f"item{j}", "n:x")
+                queue.get(timeout=0.01)
+                outstanding.append(lambda: queue.task_done("n:x"))
+        if shape == "queued-and-running":
+            queue.put("later", "n:y")
+            outstanding.append(lambda: (queue.get(timeout=0.01), queue.task_done("n:y")))
+        if shape == "deferred":
+            queue.put("deferred", "n:z", wait=0.05)
+
+            def take():
+                import time as _t
+                _t.sleep(0.06)
+                queue.get(timeout=0.2)
+                queue.task_done("n:z")
+            outstanding.append(take)
+        seen = []
+
+        class GA:
+            def is_set(self):
+                return False
+
+            def wait(self, t=None):
+                seen.append((queue.qsize, queue.inprogress_size, queue.deferred_size))
+                if outstanding:
+                    outstanding.pop(0)()
+                return False
+
+            def set(self):
+                pass
+
+            def clear(self):
+                pass
+
+        class NoWorkers:
+            def __len__(self):
+                return 1  # "workers exist": the loop must not run tasks itself
+
+            def check(self):
+                pass
+
+        saved = U.global_abort
+        U.global_abort = GA()
+        try:
+            rc = U.update_loop(queue, NoWorkers(), True)
+        finally:
+            U.global_abort = saved
+        left = (queue.qsize, queue.inprogress_size, queue.deferred_size)
+        ctx.count("drain")
+        ctx.distinct_add(("drain", shape))
+        if any(left) or rc != 0:
+            ctx.fail("C11:drain-returned-early", f"update_loop(once=True) returned {rc} with (queued, running, deferred) = {left} still outstanding (shape: {shape}; sizes seen at its waits: {seen})",
+                     {"family": "drain", "shape": shape, "left": list(left), "waits": [list(x) for x in seen]})
+
+
 def explore_tasks(ctx, n):
     rng = ctx.rng
     tcases = []
@@ -756,6 +828,7 @@ def explore(ctx):
         ctx.notes.append({"differing_case": terms[i][1]})
     explore_tasks(ctx, 200 if ctx.quick() else 3000)
     explore_consumers(ctx, 120 if ctx.quick() else 3000)
+    explore_drain(ctx)
 
 
 def search(ctx):
